@@ -103,6 +103,28 @@ func init() {
 			"acceptsOffer (charset/encoding/language matching) is taken as given",
 		},
 	}
+	var c08quick, c08all []int
+	for ti := 0; ti < 10; ti++ {
+		c08quick = append(c08quick, ti*4+(ti%4))
+		for k := 0; k < 4; k++ {
+			c08all = append(c08all, ti*4+k)
+		}
+	}
+	c08quick = append(c08quick, 0*4+1, 2*4+0, 3*4+0, 5*4+3)
+	props["C08"] = PropSpec{
+		ID: "C08",
+		Runs: []HarnessRun{
+			{Rel: ".", Dir: "fiber", Entry: "VH_C08_errors", Cases: tierCases(c08quick, c08all), Reach: []string{"default-handler", "custom-handler"}, MaxPaths: 100000, Repeat: 40},
+		},
+		Bounds: map[string]string{
+			"quick":    "10 mount trees (sibling prefixes that are string prefixes of one another, nesting up to 3, inside-out and outside-in mounting, apps with/without own handler), one error kind each (+4 extra): framework 404, *fiber.Error 418, plain error, failing handler; request path fully symbolic at the listed lengths (<= 7); every iteration order of the mounted-app map",
+			"thorough": "10 trees x 4 error kinds",
+		},
+		Assumptions: []string{
+			"request path printable ASCII without '?', '#', '%', single leading '/'; prefix comparison is byte-wise (no case folding is claimed)",
+			"map iteration order inside App.ErrorHandler is a solver-enumerated decision (all orders); native replay repeats 40 times to hit an order-dependent witness",
+		},
+	}
 	props["SMOKEFAIL"] = PropSpec{
 		ID: "SMOKEFAIL",
 		Runs: []HarnessRun{
